@@ -95,6 +95,8 @@ def poly(t, atomize=None):
         a = atomize(t)
         if a is not None:
             return a
+    if k == "sub" and isinstance(t[1], tuple) and t[1][0] == "attr" and t[1][2] == "shape" and is_const(t[2], 0):
+        t = ("ext", "len", (t[1][1],), ())          # x.shape[0] is len(x)
     return {(t,): Fraction(1)}
 
 
